@@ -11,6 +11,8 @@ mod compile_stmt;
 mod hoist;
 
 pub use builder::{BytecodeBuilder, JumpPlaceholder};
+#[cfg(tsrun_verif)]
+pub use builder::{VERIF_BAD_ALLOCS, VERIF_BAD_FREES};
 pub use bytecode::{BytecodeChunk, Constant, FunctionInfo, JumpTarget, Op, Register};
 
 use crate::prelude::*;
